@@ -1,5 +1,5 @@
 \* C04 quick: simulated long histories
-\* run by hand:  cd spec && tlc -workers 8 RunGenStore.tla -config cfg/C04__RunGenStore__simulated_long_histories.cfg -simulate num=750 -depth 17 -seed 2   (root module generated by the harness: see the .tla file next to this one; copy it to spec/ first)
+\* run by hand:  cd spec && tlc -workers 8 RunGenStore.tla -config cfg/C04__RunGenStore__simulated_long_histories.cfg -simulate num=750 -depth 17 -seed 1   (root module generated by the harness: see the .tla file next to this one; copy it to spec/ first)
 INIT GenInit
 NEXT GenNext
 CONSTANTS
@@ -13,5 +13,9 @@ CONSTANTS
   InitStores <- RInit
   Depth = 16
   EndMarker = TRUE
+  SlotKeys <- RSlotKeys
+  Asc <- RAsc
+  Desc <- RDesc
+  Pairs <- RPairs
 INVARIANT Emit
 CHECK_DEADLOCK FALSE
